@@ -240,6 +240,7 @@ type ev struct{ t, a, b int64 }
 type exch struct {
 	method, url, bodyID, bodyLen, chunked int64
 	cut                                   int64 // < 0: the ResponseWriter accepts everything
+	refuse                                bool  // the ResponseWriter is an http.Hijacker that answers every attempt with an error
 	hdrs                                  [][2]int64
 	scripts                               [][]ev
 }
@@ -251,6 +252,10 @@ func decExchange(op []int64) (exch, bool) {
 	}
 	x.method, x.url, x.bodyID, x.bodyLen, x.chunked = op[0], op[1], op[2], op[3], op[4]
 	x.cut = -1
+	if x.chunked == -1 || x.chunked == -2 { // the connection refuses to be hijacked
+		x.refuse = true
+		x.chunked = -x.chunked - 1
+	}
 	if x.chunked >= 2 {
 		x.cut = (x.chunked - 2) / 2
 		x.chunked %= 2
@@ -353,13 +358,14 @@ func scriptOf(scripts [][]ev, attempt int) []ev {
 // ---------------------------------------------------------------------------------------------
 
 type invocation struct {
-	method string
-	url    string
-	hdr    http.Header
-	cl     int64
-	te     []string
-	read   []byte
-	tmp    int64 // named temp-multibuf files present when the invocation returned
+	method  string
+	url     string
+	hdr     http.Header
+	cl      int64
+	te      []string
+	read    []byte
+	tmp     int64  // named temp-multibuf files present when the invocation returned
+	readErr string // a read of the request body that failed (other than by reaching its end)
 }
 
 type exchState struct {
@@ -371,6 +377,14 @@ type exchState struct {
 	origKept bool // original request's URL and headers unchanged after ServeHTTP
 	done     chan struct{}
 	cancel   func() // cancels the context of the request handed to the buffer
+}
+
+// refusingWriter: a ResponseWriter that can be asked for the connection and says no (an HTTP/2 stream behind a wrapper, a
+// connection that was taken over already)
+type refusingWriter struct{ http.ResponseWriter }
+
+func (refusingWriter) Hijack() (net.Conn, *bufio.ReadWriter, error) {
+	return nil, nil, errors.New("this connection cannot be hijacked")
 }
 
 // cutWriter: a ResponseWriter whose peer goes away after `left` body bytes: the bytes up to there pass, the Write
@@ -542,6 +556,7 @@ func (c *bufComp) Run(h *hlib.History) ([]hlib.Mon, bool) {
 		w.Header().Add("Link", "</b.js>; rel=preload")
 		w.Header().Add("Set-Cookie", "session=abc; Path=/; HttpOnly")
 		w.Header().Add("Set-Cookie", "theme=dark; Path=/")
+		w.Header()["Date"] = nil // the net/http idiom for "send no Date header": a name present without values
 		rec := invocation{method: req.Method, url: req.URL.String(), hdr: req.Header.Clone(), cl: req.ContentLength,
 			te: append([]string{}, req.TransferEncoding...)}
 		hijacked := false
@@ -563,14 +578,22 @@ func (c *bufComp) Run(h *hlib.History) ([]hlib.Mon, bool) {
 			case 3:
 				if e.a < 0 && e.b == 1 { // streamed out with io.Copy: uses the body's WriteTo when it has one
 					var sink bytes.Buffer
-					_, _ = io.Copy(&sink, req.Body)
+					if _, err := io.Copy(&sink, req.Body); err != nil {
+						rec.readErr = err.Error()
+					}
 					rec.read = append(rec.read, sink.Bytes()...)
 				} else if e.a < 0 {
-					d, _ := io.ReadAll(req.Body)
+					d, err := io.ReadAll(req.Body)
+					if err != nil {
+						rec.readErr = err.Error()
+					}
 					rec.read = append(rec.read, d...)
 				} else {
 					buf := make([]byte, e.a)
-					n, _ := io.ReadFull(req.Body, buf)
+					n, err := io.ReadFull(req.Body, buf)
+					if err != nil && err != io.EOF && err != io.ErrUnexpectedEOF {
+						rec.readErr = err.Error()
+					}
 					rec.read = append(rec.read, buf[:n]...)
 				}
 			case 4:
@@ -680,6 +703,9 @@ func (c *bufComp) Run(h *hlib.History) ([]hlib.Mon, bool) {
 		if st.x.cut >= 0 {
 			w = &cutWriter{ResponseWriter: w, left: st.x.cut}
 		}
+		if st.x.refuse {
+			w = refusingWriter{w}
+		}
 		buf.ServeHTTP(w, req)
 	})
 	srv := httptest.NewUnstartedServer(outer)
@@ -776,7 +802,7 @@ func (c *bufComp) Run(h *hlib.History) ([]hlib.Mon, bool) {
 			script := scriptOf(x.scripts, i+1)
 			wanted := int64(0)
 			for _, e := range script {
-				if e.t == 6 {
+				if e.t == 6 && !x.refuse {
 					break
 				}
 				if e.t == 3 {
@@ -789,6 +815,9 @@ func (c *bufComp) Run(h *hlib.History) ([]hlib.Mon, bool) {
 			}
 			if wanted < 0 || wanted > int64(len(body)) {
 				wanted = int64(len(body))
+			}
+			if in.readErr != "" {
+				hit("C06", fmt.Sprintf("attempt %d: reading the request body (%d bytes) failed: %s", i+1, len(body), in.readErr))
 			}
 			if in.cl != int64(len(body)) {
 				hit("C06", fmt.Sprintf("attempt %d: ContentLength %d, body has %d bytes", i+1, in.cl, len(body)))
@@ -831,7 +860,7 @@ func (c *bufComp) Run(h *hlib.History) ([]hlib.Mon, bool) {
 					a.written = append(a.written, genBody(e.a, e.b)...)
 					a.sum += e.b
 				case 6:
-					a.hijack = true
+					a.hijack = !x.refuse
 				}
 				if a.hijack {
 					break
@@ -915,6 +944,9 @@ func (c *bufComp) Run(h *hlib.History) ([]hlib.Mon, bool) {
 				}
 				if fmt.Sprint(respPairs) != fmt.Sprint(wantPairs) {
 					hit("C07", fmt.Sprintf("client got headers %v, the final attempt (%d) produced %v", respPairs, wantInv, wantPairs))
+				}
+				if d, ok := respHdr["Date"]; ok {
+					hit("C07", fmt.Sprintf("the final attempt (%d) suppressed the Date header (name present, no values); the client got Date %q", wantInv, d))
 				}
 				if l, c := respHdr["Link"], respHdr["Set-Cookie"]; len(l) != 2 || len(c) != 2 {
 					hit("C07", fmt.Sprintf("the final attempt (%d) sent Link and Set-Cookie on two lines each; the client got Link %q and Set-Cookie %q", wantInv, l, c))
@@ -1122,13 +1154,18 @@ func (c *bufComp) Gen(rng *rand.Rand, idx int, tier string, targeted bool) hlib.
 		if chunked == 1 && bodyLen == 0 && method != 1 {
 			chunked = 0
 		}
-		if rng.Intn(6) == 0 { // the client goes away while the response is delivered
+		refuse := rng.Intn(10) == 0      // the connection refuses to be hijacked: the handler's attempts fail, it answers normally
+		if rng.Intn(6) == 0 && !refuse { // the client goes away while the response is delivered
 			memResp := h.Cfg[2]
 			if memResp <= 0 || memResp > 1<<16 {
 				memResp = 64
 			}
 			chunked += 2 + 2*hlib.Pick(rng, 0, 1, int64(rng.Intn(40)), memResp-1, memResp, memResp+1, memResp+int64(rng.Intn(200)), int64(rng.Intn(3000)))
 			hlib.Count("client_gone_mid_response", 1)
+		}
+		if refuse {
+			chunked = -chunked - 1
+			hlib.Count("connections_refusing_hijack", 1)
 		}
 		op := []int64{method, int64(rng.Intn(50)), int64(rng.Intn(1000)), bodyLen, chunked}
 		nh := rng.Intn(3)
@@ -1143,6 +1180,9 @@ func (c *bufComp) Gen(rng *rand.Rand, idx int, tier string, targeted bool) hlib.
 			s := genScript(rng, h.Cfg, bodyLen, k == ns-1 && !(failing && rng.Intn(3) == 0), targeted)
 			if methodShape && rng.Intn(3) != 0 {
 				s = append([]ev{{9, int64(rng.Intn(3)), 0}}, s...)
+			}
+			if refuse { // the handler tries to take the connection over first (a websocket upgrader), then answers normally
+				s = append([]ev{{6, 0, 0}}, s...)
 			}
 			op = append(op, int64(len(s)))
 			for _, e := range s {
@@ -1209,7 +1249,7 @@ func (c *bufComp) Describe(h *hlib.History) interface{} {
 			}
 			scripts = append(scripts, strings.Join(parts, "; "))
 		}
-		d := map[string]interface{}{"method": methodNames[x.method], "bodyLen": x.bodyLen, "chunked": x.chunked == 1, "clientAcceptsBytes": x.cut,
+		d := map[string]interface{}{"method": methodNames[x.method], "bodyLen": x.bodyLen, "chunked": x.chunked == 1, "clientAcceptsBytes": x.cut, "connectionRefusesHijack": x.refuse,
 			"reqHeaders": x.hdrs, "url": x.url, "attemptScripts": scripts}
 		if i < len(h.Obs) {
 			d["obs"] = h.Obs[i]
@@ -1271,7 +1311,7 @@ func (c *bufComp) Nontrivial(h *hlib.History) string {
 			var sum int64
 			hij := false
 			for _, e := range scriptOf(x.scripts, int(k)) {
-				if e.t == 6 {
+				if e.t == 6 && !x.refuse {
 					hij = true
 					break
 				}
